@@ -179,15 +179,22 @@ func runSched(a *args) {
 			r := results[g]
 			want := ErrK{sc.Res[g].Err.Kind, string(bytesOf(sc.Res[g].Err.Abv))}
 			got := v.ErrKind(r.err)
-			bad := r.pan != "" || (r.err == nil) != sc.Res[g].OK
-			if !bad && sc.Res[g].OK {
-				bad = r.obj == nil || !eqs(project(r.obj, ord20), sc.Res[g].Obj)
-			}
-			if !bad && !sc.Res[g].OK {
-				// error kinds of uncatalogued inputs are not pinned by any property: only accept/reject and the object
-				bad = r.obj != nil
+			// C01: accept / reject, nil-ness, no panic; C06: the accepted object is what the text says; C14: both (filtered below)
+			verdictBad := r.pan != "" || (r.err == nil) != sc.Res[g].OK || (r.err == nil) != (r.obj != nil)
+			objBad := !verdictBad && sc.Res[g].OK && !eqs(project(r.obj, ord20), sc.Res[g].Obj)
+			bad := verdictBad || objBad
+			switch prop {
+			case "C01":
+				bad = verdictBad
+			case "C06":
+				bad = objBad
 			}
 			col.count("call results compared with the sequential specification", 1)
+			if bad && prop == "C14" && !contextDependent20(inputs[g], outcome20(r.obj, r.err, r.pan != "")) {
+				// the same outcome alone, in every neutral context: a deterministic deviation (C01 / C06), not a dependence on the schedule
+				col.count("deviations from the specification that do not depend on the context (left to C01 / C06)", 1)
+				bad = false
+			}
 			if bad {
 				var gotObj []string
 				if r.obj != nil {
